@@ -885,9 +885,19 @@ func rangeLoopsOver(fn *ssa.Function, pred func(collDesc string) bool) []*Loop {
 				}
 			case *ssa.BinOp:
 				// i < len(coll) in a loop header
+				// (i counts from 0 by 1: a loop that starts elsewhere does not walk the whole collection)
 				if x.Op == token.LSS {
 					if c, ok := x.Y.(*ssa.Call); ok && isCallTo(c, "builtin:len") {
-						coll = callArgs(c)[0]
+						if ph, isPhi := stripConv(x.X).(*ssa.Phi); isPhi && isInduction(ph) {
+							coll = callArgs(c)[0]
+						} else if bo, isBo := stripConv(x.X).(*ssa.BinOp); isBo && bo.Op == token.ADD {
+							// rotated form: the latch tests i+1 < len
+							if ph, isPhi := bo.X.(*ssa.Phi); isPhi && isInduction(ph) {
+								if k, isC := constInt(bo.Y); isC && k == 1 {
+									coll = callArgs(c)[0]
+								}
+							}
+						}
 					}
 				}
 			}
